@@ -20,6 +20,11 @@ FIRST = {
     "C17-b1": "caught by C01/C12/C20 only", "C22-b1": "missed (window opened at the LRU unlink, not at the first mutation)", "C22-b2": "missed", "C22-b3": "caught by C12/C13/C18/C20 only",
     "C24-a2": "caught (NOT ESTABLISHED: drain gone)",
     "C12-b2": "NOT ESTABLISHED under C15 only", "C01-b1": "caught (NOT ESTABLISHED form)", "C01-b2": "missed", "C02-b2": "caught by C07/C08/C09 only",
+    "C10-c1": "caught by C01/C12/C13/C18 only", "C10-c2": "NOT ESTABLISHED under C01/C06/C11 only", "C10-c3": "missed",
+    "C06-c1": "missed", "C06-c3": "missed", "C16-c1": "missed", "C16-c3": "caught by C05/C23 only",
+    "C19-c2": "missed (argument-only seed)", "C19-c3": "missed (argument-only seed)", "C20-c3": "caught by C01/C02/C12 only",
+    "C14-c1": "missed", "C14-c2": "caught by C12/C13/C18/C20/C22 only", "C14-c3": "caught by C12/C20 only",
+    "C13-c2": "caught by C01/C07/C12/C15 only", "C13-c3": "caught by C12/C14/C15/C20 only", "C18-c2": "missed", "C18-c3": "not a valid seed (killed by the existing suite)",
     "C26-a1": "missed", "C26-a2": "caught (NOT ESTABLISHED: whole-vector store gone)", "C26-a3": "missed",
 }
 for d in sorted(os.listdir(os.path.join(ROOT, "seeded"))):
